@@ -35,7 +35,7 @@ impl Default for IsoOpts {
     }
 }
 
-fn entropy_for(base: u64, case: u64, max_len: usize) -> Vec<u8> {
+pub fn entropy_for(base: u64, case: u64, max_len: usize) -> Vec<u8> {
     let mut runner = runner_for(base, case);
     EntropyStrategy { max_len }.new_tree(&mut runner).map(|t| t.current().0).unwrap_or_default()
 }
@@ -290,6 +290,8 @@ impl Ctx {
             println!("REPLAY-OK property={} subcheck={}", self.prop, name);
         }
         self.subs.push(SubReport {
+            max_len: budget.max_len,
+            sub_seed: base,
             name: name.to_string(),
             rule: rule.to_string(),
             stats,
@@ -360,7 +362,14 @@ where
         if strict {
             // replay: no shrinking
             stats.borrow_mut().want_desc = true;
-            if test(Entropy(fixed.clone().unwrap())).is_err() {
+            let failed = test(Entropy(fixed.clone().unwrap())).is_err();
+            if let Some(d) = stats.borrow_mut().last_dump.take() {
+                // E5 replay: the driver compares these files across configurations
+                let path = format!("{}/out/replay-dump.{}.txt", cx.root, cx.config);
+                let _ = std::fs::write(&path, &d);
+                eprintln!("REPLAY-DUMP config={} digest={:016x} file={}", cx.config, hash_str(&d), path);
+            }
+            if failed {
                 let mut fl = last_fail.borrow_mut().take().unwrap();
                 if let (Some(d), Some(m)) = (stats.borrow_mut().case_desc.take(), fl.detail.as_object_mut()) {
                     m.entry("case").or_insert(d);
